@@ -145,7 +145,7 @@ def build_unit(u, tier, extra_defs=(), tag='', trace=False):
     defs = list(tier_val(u, 'defines', tier, []) or []) + list(extra_defs) + ['UNIT_' + name]
     defmap = {d.split('=')[0]: (d.split('=', 1)[1] if '=' in d else True) for d in defs}
     try:
-        ctext, _, infos = xtract.expand_template(REPO, open(u['_template']).read(), defmap)
+        ctext, _, infos = xtract.expand_template(REPO, open(u['_template']).read(), defmap, SPEC)
     except xtract.ExtractError as e:
         res['status'] = 'extract-error'
         res['detail'] = str(e)
